@@ -291,3 +291,36 @@ def uproot(rng, spec, p=0.25, only_tokens=False):
                 root['c'].append(c)
     go(root, True)
     return spec
+
+
+def assign_heads(rng, spec, mode='random'):
+    """Set the head flag ('h') directly: exactly one head child per
+    constituent, every other node False (root included)."""
+    def go(node, is_head):
+        node['h'] = is_head
+        if 'c' in node:
+            if mode == 'first':
+                k = 0
+            elif mode == 'last':
+                k = len(node['c']) - 1
+            else:
+                k = rng.randrange(len(node['c']))
+            for i, c in enumerate(node['c']):
+                go(c, i == k)
+    go(spec['root'], False)
+    return spec
+
+
+def all_head_assignments(spec):
+    """Yield copies of spec with every possible head assignment."""
+    import copy
+    import itertools as it
+    cons = [n for n in walk(spec['root']) if 'c' in n]
+    for combo in it.product(*[range(len(n['c'])) for n in cons]):
+        s = copy.deepcopy(spec)
+        cs = [n for n in walk(s['root']) if 'c' in n]
+        s['root']['h'] = False
+        for n, k in zip(cs, combo):
+            for i, c in enumerate(n['c']):
+                c['h'] = (i == k)
+        yield s
